@@ -37,6 +37,10 @@ def unfaithful_violation(ctx, e):
         ctx.violation({"kind": "implementation-blocked", "what": e.row["what"], "harness_output_tail": e.row.get("a"),
                        "harness_args": [str(a) for a in e.args]})
         return
+    if e.row.get("kind") == "foreign_result":
+        ctx.violation({"kind": "result-never-stored", "what": e.row["what"], "value": e.row.get("a"), "where": e.row.get("b"),
+                       "harness_args": [str(a) for a in e.args]})
+        return
     ctx.violation({"kind": "identity-of-stored-values", "what": e.row.get("what"), "a": e.row.get("a"), "b": e.row.get("b"),
                    "harness_args": [str(a) for a in e.args],
                    "explain": "two values that differ in id, kind, instant or object value have the same UUID (or equal values "
@@ -50,7 +54,7 @@ def hstore(args, timeout=1800):
         # the harness found two values whose model keys and UUIDs disagree: the implementation identifies what the
         # property distinguishes (or the reverse); the last line describes the pair
         rows = [json.loads(l) for l in out.splitlines() if l.startswith("{")]
-        raise KeyUnfaithful([r for r in rows if r.get("kind") == "key_unfaithful"][-1], args)
+        raise KeyUnfaithful([r for r in rows if r.get("kind") in ("key_unfaithful", "foreign_result")][-1], args)
     if rc == 4:
         raise KeyUnfaithful({"kind": "stuck", "what": "implementation blocked: a Store/Graph call made by the harness did not "
                              "return within 120 s", "a": out[-600:], "b": ""}, args)
